@@ -19,6 +19,9 @@ pub struct PagedReader<T: Read + Seek> {
 
     #[cfg(not(feature = "crc32c"))]
     crc: Crc32,
+
+    #[cfg(e57_verif)]
+    vid: u64,
 }
 
 impl<T: Read + Seek> PagedReader<T> {
@@ -51,6 +54,16 @@ impl<T: Read + Seek> PagedReader<T> {
 
         let pages = phy_file_size / page_size;
 
+        #[cfg(e57_verif)]
+        let vid = match crate::verif_trace::snapshot(&mut reader) {
+            Some(img) => crate::verif_trace::new_id(&format!(
+                "\"ev\":\"r_open\",\"page_size\":{page_size},\"size\":{phy_file_size},\"img\":{img}"
+            )),
+            None => crate::verif_trace::new_id(&format!(
+                "\"ev\":\"r_open\",\"page_size\":{page_size},\"size\":{phy_file_size}"
+            )),
+        };
+
         Ok(Self {
             reader,
             page_size,
@@ -63,12 +76,18 @@ impl<T: Read + Seek> PagedReader<T> {
 
             #[cfg(not(feature = "crc32c"))]
             crc: Crc32::new(),
+
+            #[cfg(e57_verif)]
+            vid,
         })
     }
 
     /// Seeking to a physical file address as offset relative to the start of the file.
     /// Will return the new logical offset inside the file or an error.
     pub fn seek_physical(&mut self, offset: u64) -> Result<u64> {
+        #[cfg(e57_verif)]
+        crate::verif_trace::emit(self.vid, &format!("\"ev\":\"r_seek_begin\",\"off\":{offset}"));
+
         if offset >= self.phy_file_size {
             Err(Error::new(
                 ErrorKind::InvalidInput,
@@ -78,6 +97,8 @@ impl<T: Read + Seek> PagedReader<T> {
 
         let pages_before = offset / self.page_size;
         self.offset = offset - pages_before * CHECKSUM_SIZE;
+        #[cfg(e57_verif)]
+        crate::verif_trace::emit(self.vid, &format!("\"ev\":\"r_seek_ok\",\"res\":{}", self.offset));
         Ok(self.offset)
     }
 
@@ -123,6 +144,9 @@ impl<T: Read + Seek> PagedReader<T> {
 
     /// Do some skipping to next 4-byte-aligned offset, if needed.
     pub fn align(&mut self) -> Result<()> {
+        #[cfg(e57_verif)]
+        crate::verif_trace::emit(self.vid, "\"ev\":\"r_align_begin\"");
+
         let off_alignment = self.offset % 4;
         if off_alignment != 0 {
             let skip = ALIGNMENT_SIZE - off_alignment;
@@ -134,14 +158,21 @@ impl<T: Read + Seek> PagedReader<T> {
             }
             self.offset += skip;
         }
+        #[cfg(e57_verif)]
+        crate::verif_trace::emit(self.vid, "\"ev\":\"r_align_ok\"");
         Ok(())
     }
 }
 
 impl<T: Read + Seek> Read for PagedReader<T> {
     fn read(&mut self, buf: &mut [u8]) -> Result<usize> {
+        #[cfg(e57_verif)]
+        crate::verif_trace::emit(self.vid, &format!("\"ev\":\"r_read_begin\",\"n\":{}", buf.len()));
+
         let page = self.offset / (self.page_size - CHECKSUM_SIZE);
         if page >= self.pages {
+            #[cfg(e57_verif)]
+            crate::verif_trace::emit(self.vid, "\"ev\":\"r_read_ok\",\"res\":[]");
             return Ok(0);
         }
         if self.page_num != Some(page) {
@@ -154,6 +185,13 @@ impl<T: Read + Seek> Read for PagedReader<T> {
             &self.page_buffer[page_offset as usize..page_offset as usize + read_size],
         );
         self.offset += read_size as u64;
+        #[cfg(e57_verif)]
+        if crate::verif_trace::enabled() {
+            crate::verif_trace::emit(
+                self.vid,
+                &format!("\"ev\":\"r_read_ok\",\"res\":{}", crate::verif_trace::bytes(&buf[..read_size])),
+            );
+        }
         Ok(read_size)
     }
 }
